@@ -365,6 +365,9 @@ pub struct RealOut {
     pub output: OutVal,
     pub expected: ExpVal,
     pub check: bool,
+    /// the same verdict through the two value-level entry points: `OutputValue::check(expected)` and
+    /// `ExpectedValue::check(output)`
+    pub check_by_value: (bool, bool),
     pub is_checked: bool,
 }
 
@@ -388,6 +391,7 @@ pub fn own_row(row: &DataRow<'_>) -> RealRow {
             output: outval(o.output),
             expected: expval(o.expected),
             check: o.check(),
+            check_by_value: (o.output.check(o.expected), o.expected.check(o.output)),
             is_checked: o.is_checked(),
         })
         .collect();
@@ -528,6 +532,7 @@ fn take_draws() -> (Vec<crate::ri::DrawEv>, usize) {
     (v, runs)
 }
 
+#[allow(deprecated)]
 fn run_with<D: HasCore>(tc: &TestCase, mut driver: D, opts: &RunOpts) -> RealRun {
     digital_test_runner::verif_hooks::set_seed_override(opts.seed);
     digital_test_runner::verif_hooks::set_fuel(opts.fuel);
@@ -546,7 +551,9 @@ fn run_with<D: HasCore>(tc: &TestCase, mut driver: D, opts: &RunOpts) -> RealRun
     };
     let log = driver.core().log.clone();
     {
-        let it = guarded(|| tc.try_iter(&mut driver));
+        // `run_iter` is the documented alias of `try_iter`: every statement about "constructing the iterator" holds for
+        // both. Which one a case uses is a function of the case (odd number of signals).
+        let it = guarded(|| if tc.signals.len() % 2 == 1 { tc.run_iter(&mut driver) } else { tc.try_iter(&mut driver) });
         match it {
             Err(p) => run.ctor = Some(RealItem::Panic(p)),
             Ok(Err(e)) => run.ctor = Some(iter_err(&e, |d| d.id)),
